@@ -293,6 +293,19 @@ def build(prog: dict) -> dict:
                                            "created_duplicate" if "duplicate" in str(ex)
                                            else "other")})
         gc_dict = None
+    # a traced / inlined graph that cannot even be READ (a node whose shape or dtype
+    # property raises: an operand of the wrong rank substituted in) is ill-formed
+    for which, gd in (("traced", gb_dict), ("inlined", gc_dict)):
+        if gd is None:
+            continue
+        try:
+            export.export_graph(gd)
+        except export.Unsupported:
+            pass
+        except Exception as ex:      # noqa: BLE001
+            res["problems"].append({"clause": f"{which}_graph_ill_formed",
+                                    "what": f"{type(ex).__name__}: {ex}"[:300]})
+            return res
     try:
         ga, ia = export.export_graph(ga_dict)
         gb, ib = export.export_graph(gb_dict)
@@ -387,6 +400,70 @@ def directed_ident() -> list[dict]:
     return out
 
 
+def directed_nested() -> list[dict]:
+    """(i) a NESTED call whose k-th argument is not the enclosing function's k-th parameter
+    (g(b, a) inside f(a, b); g(b, a*b, a); three levels); (ii) a tuple / dict-returning
+    function in which an EQUAL sub-term is written out once per output (two equal but
+    distinct objects in one body), or both results of one nested call feed different
+    outputs."""
+    def inp(name: str, shape: tuple = (3,), dtype: str = "f8") -> dict:
+        return {"kind": "ph", "name": name, "shape": list(shape), "dtype": dtype}
+    sig2 = [([3], "f8")] * 2
+    two = {"py": "float", "v": "2.0"}
+    out = []
+    # g(u, v) = u - 2 v ;  f(a, b) = g(b, a) * a
+    g = {"nparams": 2, "kwparams": [], "sig": sig2, "ret": {"type": "array", "v": 4},
+         "calls": [{"op": "mul", "a": 2, "b": two}, {"op": "sub", "a": 1, "b": 3}]}
+    f_swap = {"nparams": 2, "kwparams": [], "sig": sig2, "ret": {"type": "array", "v": 5},
+              "calls": [{"op": "trace_call", "f": 0, "args": [2, 1], "kw": {}},
+                        {"op": "item", "a": 3, "key": None}, {"op": "mul", "a": 4, "b": 1}]}
+    # g3(u, v, w) = u - 2 v + w ;  f3(a, b) = g3(b, a*b, a)
+    g3 = {"nparams": 3, "kwparams": [], "sig": [([3], "f8")] * 3,
+          "ret": {"type": "array", "v": 6},
+          "calls": [{"op": "mul", "a": 2, "b": two}, {"op": "sub", "a": 1, "b": 4},
+                    {"op": "add", "a": 5, "b": 3}]}
+    f3 = {"nparams": 2, "kwparams": [], "sig": sig2, "ret": {"type": "array", "v": 5},
+          "calls": [{"op": "mul", "a": 1, "b": 2},
+                    {"op": "trace_call", "f": 0, "args": [2, 3, 1], "kw": {}},
+                    {"op": "item", "a": 4, "key": None}]}
+    # third level: h(a, b) = f_swap(b, a) + a
+    h = {"nparams": 2, "kwparams": [], "sig": sig2, "ret": {"type": "array", "v": 5},
+         "calls": [{"op": "trace_call", "f": 1, "args": [2, 1], "kw": {}},
+                   {"op": "item", "a": 3, "key": None}, {"op": "add", "a": 4, "b": 1}]}
+    top = [{"op": "trace_call", "f": None, "args": [1, 2], "kw": {}},
+           {"op": "item", "a": 3, "key": None}]
+    for name, funcs, fi in (("swap", [g, f_swap], 1), ("three_args", [g3, f3], 1),
+                            ("depth3", [g, f_swap, h], 2)):
+        calls = [dict(top[0], f=fi), top[1]]
+        out.append({"id": f"nested_{name}", "inputs": [inp("x"), inp("y")], "calls": calls,
+                    "outs": {"out0": 4}, "funcs": funcs})
+    # equal sub-terms written out once per output
+    for rt in ("tuple", "dict"):
+        ret = {"type": "tuple", "v": [4, 6]} if rt == "tuple" else \
+            {"type": "dict", "v": {"r": 4, "s": 6}}
+        keys = [0, 1] if rt == "tuple" else ["r", "s"]
+        eqf = {"nparams": 2, "kwparams": [], "sig": sig2, "ret": ret,
+               "calls": [{"op": "add", "a": 1, "b": 2}, {"op": "mul", "a": 3, "b": two},
+                         {"op": "add", "a": 1, "b": 2}, {"op": "mul", "a": 5, "b": 2}]}
+        calls = [{"op": "trace_call", "f": 0, "args": [1, 2], "kw": {}},
+                 {"op": "item", "a": 3, "key": keys[0]}, {"op": "item", "a": 3, "key": keys[1]},
+                 {"op": "sub", "a": 4, "b": 5}]
+        out.append({"id": f"equal_subterm_per_output_{rt}", "inputs": [inp("x"), inp("y")],
+                    "calls": calls, "outs": {"out0": 4, "out1": 5, "out2": 6}, "funcs": [eqf]})
+    # both results of ONE nested call used by different outputs of the caller function
+    g2 = {"nparams": 2, "kwparams": [], "sig": sig2, "ret": {"type": "tuple", "v": [3, 4]},
+          "calls": [{"op": "add", "a": 1, "b": 2}, {"op": "mul", "a": 1, "b": 2}]}
+    f2 = {"nparams": 2, "kwparams": [], "sig": sig2, "ret": {"type": "tuple", "v": [6, 7]},
+          "calls": [{"op": "trace_call", "f": 0, "args": [1, 2], "kw": {}},
+                    {"op": "item", "a": 3, "key": 0}, {"op": "item", "a": 3, "key": 1},
+                    {"op": "mul", "a": 4, "b": two}, {"op": "sub", "a": 5, "b": 1}]}
+    calls = [{"op": "trace_call", "f": 1, "args": [1, 2], "kw": {}},
+             {"op": "item", "a": 3, "key": 0}, {"op": "item", "a": 3, "key": 1}]
+    out.append({"id": "nested_both_results", "inputs": [inp("x"), inp("y")], "calls": calls,
+                "outs": {"out0": 4, "out1": 5}, "funcs": [g2, f2]})
+    return out
+
+
 def programs(tier: str) -> list[dict]:
     rng = np.random.default_rng(seed())
     n = 300 if tier == "quick" else 4000
@@ -398,7 +475,7 @@ def programs(tier: str) -> list[dict]:
         if p is not None:
             p["ident"] = ("own", "own", "shared", "none")[len(out) % 4]
             out.append(p)
-    return directed_ident() + out
+    return directed_ident() + directed_nested() + out
 
 
 def main(tier: str, only: list[dict] | None = None) -> int:
